@@ -192,6 +192,37 @@ fn pst13(ctx: &mut Ctx, rng: &mut ChaCha20Rng) {
         let o = check::<S>(&tx.w.vk, &comms, &z, &bad, &pf, &mut tx.sponge(), 2);
         judge(ctx, name, "check", &desc, true, &o, json!({}));
     }
+    // the library prover run on q = p with two variables exchanged (same commitment state), against commitment(p)
+    let nv = tx.w.cfg.num_vars.unwrap();
+    if nv >= 2 {
+        use ark_poly::multivariate::{SparsePolynomial, SparseTerm, Term};
+        use ark_poly::DenseMVPolynomial;
+        let (i, mut j) = (below(rng, nv), below(rng, nv));
+        if i == j {
+            j = (i + 1) % nv;
+        }
+        let p0 = tx.polys[0].polynomial();
+        let terms: Vec<(Fr, SparseTerm)> = p0
+            .terms()
+            .iter()
+            .map(|(cf, t)| {
+                let vs: Vec<(usize, usize)> = t.vars().iter().zip(t.powers()).map(|(v, pw)| (if *v == i { j } else if *v == j { i } else { *v }, pw)).collect();
+                (*cf, SparseTerm::new(vs))
+            })
+            .collect();
+        let q = SparsePolynomial::from_coefficients_vec(nv, terms);
+        let lq: LPoly<S> = ark_poly_commit::LabeledPolynomial::new(tx.polys[0].label().clone(), q.clone(), None, tx.specs[0].hiding);
+        let vq = lq.evaluate(&z);
+        let mut r = crate::probe::mon_rng(5);
+        let res = crate::rt::attempt(|| PcOf::<S>::open(&tx.w.ck, [&lq], [&tx.c.comms[0]], &z, &mut tx.sponge(), [&tx.c.states[0]], Some(&mut r)));
+        match res {
+            Err(_) => ctx.skipped("variables-exchanged-polynomial", "library prover refuses the mismatched inputs"),
+            Ok(pf) => {
+                let o = check::<S>(&tx.w.vk, &[&tx.c.comms[0]], &z, &[vq], &pf, &mut tx.sponge(), 2);
+                judge(ctx, "variables-exchanged-polynomial", "check", &desc, vq != vals[0] && &q != p0, &o, json!({"exchanged": [i, j]}));
+            }
+        }
+    }
 }
 
 // ---------------------------------------------------------------- Hyrax
@@ -385,6 +416,7 @@ pub fn run(ctx: &mut Ctx) {
     ctx.run_cases("hyrax/shape", n, |ctx, _i, rng| hyrax(ctx, rng));
     ctx.run_cases("ipa/rounds", n, |ctx, _i, rng| ipa(ctx, rng));
     ctx.run_cases("ligero-uni/crafted", n, |ctx, _i, rng| super::c03_lin::case::<UniLigeroS, UniLigeroEnc>(ctx, rng));
+    ctx.run_cases("ligero-uni/window-forgery", if ctx.is_thorough() { 24 } else { 8 }, |ctx, _i, rng| super::c03_lin::window_forgery(ctx, rng));
     ctx.run_cases("ligero-ml/crafted", n, |ctx, _i, rng| super::c03_lin::case::<MlLigeroS, MlLigeroEnc>(ctx, rng));
     ctx.run_cases("brakedown/crafted", n / 2, |ctx, _i, rng| super::c03_lin::case::<BrakedownS, BrakedownEnc>(ctx, rng));
 }
